@@ -36,11 +36,12 @@ var errStub = errors.New("stub storage error")
 
 const hangAfter = 60 * time.Second
 
-func rowsOf(t, step int64) int { return 1 + int((t/step)%2) }
+// rows the storage holds for slot time t at storage version ver: 0, 1 or 2 (rows appear and disappear between versions)
+func rowsOf(t, step, ver int64) int { return int((t/step + ver) % 3) }
 
 // what the storage produces for slot time t
 func stubRows(t, key, step, ver, load int64) []api.VerifC23Row {
-	n := rowsOf(t, step)
+	n := rowsOf(t, step, ver)
 	rs := make([]api.VerifC23Row, n)
 	for i := range rs {
 		rs[i] = api.VerifC23Row{Time: t, Key: key, Step: step, Ver: ver, Load: load, Idx: int64(i)}
@@ -54,7 +55,7 @@ func cellText(rows []api.VerifC23Row, step int64) string {
 		return "_"
 	}
 	r0 := rows[0]
-	ok := len(rows) == rowsOf(r0.Time, step)
+	ok := len(rows) == rowsOf(r0.Time, step, r0.Ver)
 	for i, r := range rows {
 		if r.Time != r0.Time || r.Key != r0.Key || r.Ver != r0.Ver || r.Load != r0.Load || r.Step != step || r.Idx != int64(i) {
 			ok = false
@@ -94,6 +95,12 @@ type request struct {
 	pendingAtBegin bool
 }
 
+type loadRec struct {
+	key, from, to, ver int64
+	seq                int
+	ok                 bool
+}
+
 type invEvent struct {
 	seq   int
 	times []int64
@@ -112,6 +119,7 @@ type script struct {
 	results chan result
 	reqs    map[int64]*request
 	finSeq  map[int64]int // load id (= request id) -> seq of its fin op
+	loads   []loadRec
 	invs    []invEvent
 	seq     int
 	version int64
@@ -229,8 +237,16 @@ func (s *script) checkResult(rq *request, rows [][]api.VerifC23Row) {
 	}
 	for i, rs := range rows {
 		t := rq.from + int64(i)*s.step
-		if len(rs) != rowsOf(t, s.step) {
-			s.h.Viol("misplaced-rows", "request %d key %d slot %d (time %d): %d rows, storage produces %d", rq.id, rq.key, i, t, len(rs), rowsOf(t, s.step))
+		if len(rs) == 0 {
+			// the storage may hold no rows for this slot at some version: an empty slot is right iff some load that the
+			// freshness rule allows covered the slot and was answered with zero rows for it
+			if rq.play == 0 && !s.emptyAllowed(rq, t) {
+				s.h.Viol("rows-not-from-allowed-load", "request %d key %d slot %d (time %d) is empty, but no load finished by now that covers it, got zero rows for it and is not older than an invalidation of that second completed before the request began", rq.id, rq.key, i, t)
+			}
+			continue
+		}
+		if len(rs) != rowsOf(t, s.step, rs[0].Ver) {
+			s.h.Viol("misplaced-rows", "request %d key %d slot %d (time %d): %d rows, storage produced %d at version %d", rq.id, rq.key, i, t, len(rs), rowsOf(t, s.step, rs[0].Ver), rs[0].Ver)
 			continue
 		}
 		for j, r := range rs {
@@ -263,6 +279,31 @@ func (s *script) checkResult(rq *request, rows [][]api.VerifC23Row) {
 			}
 		}
 	}
+}
+
+// emptyAllowed: is there a finished successful load of this key covering slot t with zero rows at its version that did
+// not finish before an invalidation of that second which completed before the request began?
+func (s *script) emptyAllowed(rq *request, t int64) bool {
+	for _, ld := range s.loads {
+		if ld.key != rq.key || !ld.ok || t < ld.from || t >= ld.to || rowsOf(t, s.step, ld.ver) != 0 {
+			continue
+		}
+		stale := false
+		for _, ev := range s.invs {
+			if !(ld.seq < ev.seq && ev.seq < rq.beginSeq) {
+				continue
+			}
+			for _, it := range ev.times {
+				if t <= it && it < t+s.step {
+					stale = true
+				}
+			}
+		}
+		if !stale {
+			return true
+		}
+	}
+	return false
 }
 
 func (s *script) pendingCalls() []int64 {
@@ -336,6 +377,7 @@ func (s *script) opFin(id int64, ok bool) {
 		return
 	}
 	s.finSeq[id] = s.seq
+	s.loads = append(s.loads, loadRec{key: c.key, from: c.from, to: c.to, ver: s.version, seq: s.seq, ok: ok})
 	if ok {
 		s.h.Op("fin %d ok %d %d", id, s.version, s.now())
 	} else {
@@ -669,8 +711,11 @@ func (f *free) check(id, key int64, play int, step, from, to int64, beginSeq int
 	f.mu.Unlock()
 	for i, rs := range rows {
 		t := from + int64(i)*step
-		if len(rs) != rowsOf(t, step) {
-			f.viol("misplaced-rows", "request %d key %d step %d slot %d (time %d): %d rows, storage produces %d", id, key, step, i, t, len(rs), rowsOf(t, step))
+		if len(rs) == 0 {
+			continue // the storage may hold no rows for this slot
+		}
+		if len(rs) != rowsOf(t, step, rs[0].Ver) {
+			f.viol("misplaced-rows", "request %d key %d step %d slot %d (time %d): %d rows, storage produced %d at version %d", id, key, step, i, t, len(rs), rowsOf(t, step, rs[0].Ver), rs[0].Ver)
 			continue
 		}
 		bad := false
@@ -709,6 +754,10 @@ func (f *free) check(id, key int64, play int, step, from, to int64, beginSeq int
 
 func freeRunning(h *verifx.H) {
 	h.Cases(func(ci int, r *verifx.Rng) {
+		if ci < 2 {
+			limitScenario(h, ci)
+			return
+		}
 		f := &free{h: h, loads: map[int64]*fload{}, publ: map[int64]*fload{}, stats: map[string]int64{}, seed: r.U64(), failPct: r.Pick(3, 3, 1) * 5}
 		chunkSize := []int{0, 2, 3, 5}[r.Intn(4)]
 		f.v = api.VerifC23New(chunkSize, f.stub)
@@ -854,6 +903,88 @@ func freeRunning(h *verifx.H) {
 	})
 }
 
+
+// ---------------------------------------------------------------------------------------------- limit scenarios
+// A waiter parked at a memory limit must be released when the limits are switched off. The trim goroutine is held back
+// (it blocks on the mutex of the only bucket) so that the order "waiter parked" -> "setLimits(unlimited)" -> "trimming
+// goes on" is certain. kind 0: a request parked in tryNotExceedMemoryHardLimit; kind 1: a load parked in
+// tryNotExceedMemorySoftLimitInflight.
+
+func parkedIn(fn string) bool {
+	buf := make([]byte, 8<<20)
+	buf = buf[:runtime.Stack(buf, true)]
+	for _, g := range strings.Split(string(buf), "\n\n") {
+		if strings.Contains(g, fn) && strings.Contains(g[:strings.IndexByte(g+"\n", '\n')], "sync.Cond.Wait") {
+			return true
+		}
+	}
+	return false
+}
+
+func limitScenario(h *verifx.H, kind int) {
+	h.Op("limits-scenario kind=%d", kind)
+	stub := func(ctx context.Context, reqID, keyID, fromSec, toSec, stepSec int64, nslots int) ([][]api.VerifC23Row, error) {
+		ctx, cancel := context.WithCancel(ctx)
+		defer cancel()
+		_, finish := api.VerifC23Inflight(ctx, cancel) // registers and calls updateInflightApprox(id, 0), as loadPoints does
+		defer finish()
+		rows := make([][]api.VerifC23Row, nslots)
+		for i := range rows {
+			rows[i] = stubRows(fromSec+int64(i)*stepSec, keyID, stepSec, 1, reqID)
+		}
+		return rows, nil
+	}
+	v := api.VerifC23New(0, stub)
+	base := ((time.Now().Unix() - 3600) / 60) * 60
+	waitFor := func(what string, cond func() bool) bool {
+		deadline := time.Now().Add(hangAfter)
+		for !cond() {
+			if time.Now().After(deadline) {
+				h.Obs("stuck waiting for: %s", what)
+				return false
+			}
+			time.Sleep(200 * time.Microsecond)
+		}
+		return true
+	}
+	if _, err := v.Get(context.Background(), 1, "u", "k1", 1, 0, 1, base, base+60, false); err != nil {
+		h.Obs("fill failed: %v", err)
+		return
+	}
+	if !waitFor("cache filled", func() bool { return v.Info().Size > 0 }) {
+		return
+	}
+	release := v.HoldBucket(1, "k1")
+	size := v.Info().Size
+	fn := "tryNotExceedMemoryHardLimit("
+	if kind == 0 {
+		v.SetLimits(64, 0, 0) // far below the cache size: the next request parks on the hard limit
+	} else {
+		v.SetLimits(size+1, 0, 0) // soft limit (80 %) below, hard limit above the cache size: the next load parks on the soft limit
+		fn = "tryNotExceedMemorySoftLimitInflight("
+	}
+	done := make(chan error, 1)
+	go func() {
+		_, err := v.Get(context.Background(), 2, "u", "k2", 2, 0, 1, base, base+60, false)
+		done <- err
+	}()
+	parked := waitFor("waiter parked in "+fn, func() bool { return parkedIn(fn) })
+	v.SetLimits(0, 0, 0) // no memory limit any more: nothing left to wait for
+	release()             // trimming goes on
+	if parked {
+		select {
+		case err := <-done:
+			h.Obs("ok err=%v", err != nil)
+		case <-time.After(hangAfter):
+			h.Obs("hang")
+			h.Viol("request-never-returns", "limits scenario %d: a waiter parked in %s is still waiting %v after setLimits(unlimited)", kind, fn, hangAfter)
+			h.Done()
+			os.Exit(0)
+		}
+	}
+	v.Shutdown()
+	h.NonTrivial("limits-switched-off-while-parked")
+}
 
 // ---------------------------------------------------------------------------------------------- probes
 // mode "probe": two fixed experiments on the real code, reported as observations only (no oracle):
